@@ -26,9 +26,11 @@ def main(tier, only=None):
     chk.bounds += [
         "types: S1 = struct{int a:3; int b:5; unsigned c:7; int d; char e; short f; long g:40;}; "
         "S2 = struct{char x; S1 s; long y; short z[2];}; S1[2]; union{long l; S1 s; char c; short h[2];}",
-        "presence patterns: every subset of the 7 leaves for S1; for the larger shapes none/all/each leaf alone/each "
-        "leaf missing/two alternating patterns/every subset of the first S1 group; union: every choice of designated "
-        "member or none; leaf values: ANY int or long literal (symbolic)",
+        "presence patterns (constant loop inside each query): static image - every subset of the 7 leaves for S1; for "
+        "the larger shapes none/all/each leaf alone/each leaf missing/two alternating/every subset of the four "
+        "bit-field leaves of the first S1; automatic chain - none/all/alternating (+ each leaf missing for S1, and for "
+        "all shapes in the thorough tier); union: every choice of designated member or none x pattern; leaf values: "
+        "ANY int or long literal (symbolic)",
     ]
     chk.outside += [
         "the initializer PARSER (initializer2, designators, brace elision, string literals, flexible arrays, "
@@ -37,15 +39,24 @@ def main(tier, only=None):
         "(static `_Bool b = 256` stores 0: write_gvar_data truncates instead of converting - noted, not decided here), "
         "bit-fields of width 64, emit_data's .byte/.quad walk (codegen.c)",
     ]
+    thorough = tier == "thorough"
+    # presence-pattern sets (harness -DPATSET): 0 every subset of S1's 7 leaves; 1 basic + every subset of the four
+    # bit-field leaves; 3 none/all/each-missing/alternating; 4 none/all/alternating
+    static_pat = {1: 0, 2: 1, 3: 1, 4: 1}
+    auto_pat = {1: 3, 2: 3, 3: 3, 4: 3} if thorough else {1: 3, 2: 4, 3: 4, 4: 4}
     hs = []
     for sh, name in SHAPES:
-        for fn, kind in (("h_static", "static"), ("h_auto", "auto")):
+        for fn, kind, pat in (("h_static", "static", static_pat[sh]), ("h_auto", "auto", auto_pat[sh])):
             if not want(kind):
                 continue
-            hs.append(e1.H(fn, "%s/%s" % (kind, name), unwind=200, defines=("SHAPE=%d" % sh,), replace_calls=RC,
-                           object_bits=12, timeout=1500 if tier == "thorough" else 500, family=kind))
+            hs.append(e1.H(fn, "%s/%s" % (kind, name), unwind=200, defines=("SHAPE=%d" % sh, "PATSET=%d" % pat),
+                           replace_calls=RC, object_bits=12, timeout=2400 if thorough else 600, family=kind,
+                           desc="PATSET=%d" % pat))
     if hs:
         e1.run_set(chk, "c05/init.c", hs, workers=8, extra_src=extra)
+    if (not only) or "init" in only:
+        import c05_e2
+        c05_e2.run(chk, tier)
     if os.environ.get("VERIF_VERBOSE"):
         for o in chk.obl:
             print("  %-40s %-12s %6.1fs %s" % (o["key"], o["status"], o["secs"], o["detail"][:110]))
